@@ -267,9 +267,94 @@ META = {
     ],
     "trusted": ["CrossHair 0.0.110 / z3 5.1", "ModelFS (validated in C02)"],
 }
+# ---- the fingerprint the rules see is the fingerprint of the certificate THIS connection presented -----------------
+_CERTS = []
+
+
+def _client_certs():
+    """real client certificates as PyOpenSSL hands them up: a member, an outsider whose self-signed certificate copies
+    the member's issuer name and serial number (different key), another outsider copying only the subject, and an
+    unrelated one"""
+    if _CERTS:
+        return _CERTS
+    import datetime
+    import hashlib
+    from cryptography import x509
+    from cryptography.hazmat.primitives import hashes, serialization
+    from cryptography.hazmat.primitives.asymmetric import ec
+    from cryptography.x509.oid import NameOID
+    from OpenSSL import crypto
+
+    def make(cn, serial):
+        key = ec.generate_private_key(ec.SECP256R1())
+        name = x509.Name([x509.NameAttribute(NameOID.COMMON_NAME, cn)])
+        cert = (x509.CertificateBuilder().subject_name(name).issuer_name(name).public_key(key.public_key())
+                .serial_number(serial).not_valid_before(datetime.datetime(2026, 1, 1))
+                .not_valid_after(datetime.datetime(2036, 1, 1)).sign(key, hashes.SHA256()))
+        der = cert.public_bytes(serialization.Encoding.DER)
+        return crypto.load_certificate(crypto.FILETYPE_ASN1, der), "sha256:" + hashlib.sha256(der).hexdigest()
+    _CERTS.extend([make("member", 4242), make("member", 4242), make("member", 7), make("stranger", 4242)])
+    return _CERTS
+
+
+_client_certs()                # built at import time, outside the engine
+import nauyaca.security.certificates as _certmod  # noqa: E402
+import nauyaca.security.pyopenssl_tls as _pyomod  # noqa: E402
+from vf import ModuleState  # noqa: E402
+
+_PYO_STATE = ModuleState(_pyomod)
+_CERTMOD_STATE = ModuleState(_certmod)
+
+
+class _Conn:
+    def __init__(self, x):
+        self.x = x
+
+    def get_peer_certificate(self):
+        return self.x
+
+
+def peer_identity(i1: int, i2: int, i3: int, n: int) -> bool:
+    """
+    pre: 0 <= i1 <= 3 and 0 <= i2 <= 3 and 0 <= i3 <= 3 and 1 <= n <= 3
+    post: _
+    """
+    # a sequence of connections on the PyOpenSSL backend, each presenting one of four real certificates: what reaches the
+    # rules is the fingerprint of the certificate of that very connection, so only the member is admitted -- whatever
+    # earlier connections presented (no memo keyed by anything an outsider can copy)
+    import nauyaca.security.pyopenssl_tls as pyo
+    from nauyaca.security.certificates import get_certificate_fingerprint
+    _PYO_STATE.restore()
+    _CERTMOD_STATE.restore()
+    certs = _client_certs()
+    member_fp = certs[0][1]
+    ca = CertificateAuth(CertificateAuthConfig(path_rules=[
+        CertificateAuthPathRule(prefix="/members/", require_cert=True, allowed_fingerprints={member_fp})]))
+    for i in (i1, i2, i3)[:n]:
+        x, truth = certs[i]
+        got = pyo.get_peer_certificate_from_connection(_Conn(x))
+        if got is None:
+            return V(False)
+        fp = get_certificate_fingerprint(pyo.x509_to_cryptography(got))
+        if fp != truth:
+            return V(False)
+        (ok, resp), exc = drive(ca.process_request("gemini://h/members/x", "192.0.2.1", fp))
+        if exc is not None or ok != (i == 0):
+            return V(False)
+        if not ok and not str(resp).startswith("61"):
+            return V(False)
+    return V(True)
+
+
 FN = ["CertificateAuth._extract_path", "_find_matching_rule", "process_request", "StaticFileHandler.handle",
       "ServerConfig.get_certificate_auth_config", "GeminiRequest.from_line"]
 OBLIGATIONS = [
+    Ob("peer_identity", peer_identity, quick=120, thorough=300,
+       symbolic="sequences of 1..3 connections, each presenting one of 4 real client certificates (member; same issuer+serial, other key; "
+                "same subject; same serial) through the real PyOpenSSL -> cryptography conversion and fingerprint functions",
+       functions=["get_peer_certificate_from_connection", "x509_to_cryptography", "get_certificate_fingerprint",
+                  "CertificateAuth.process_request"], stubs=["connection object returning a real OpenSSL.crypto.X509"],
+       note="discrete: the certificates are concrete (X.509 parsing is C code), the engine forks on the sequence"),
     Ob("spelling2", spelling2, quick=800, thorough=2400,
        symbolic="a never-admitting rule on one of 5 prefixes; 2 path segments (10 quick / 14 thorough names incl. '.', '..', empty, "
                 "pct-encoded), trailing slash, query", functions=FN, stubs=["ModelFS"]),
